@@ -120,6 +120,8 @@ func deviations(op string) []dev {
 		{"ban-active", func(r *row, b *brd) { b.ban = "act" }},
 		{"ban-expired", func(r *row, b *brd) { b.ban = "exp" }},
 		{"ban-junk", func(r *row, b *brd) { b.ban = "junk" }},
+		{"ban-empty", func(r *row, b *brd) { b.ban = "empty" }},
+		{"ban-dir", func(r *row, b *brd) { b.ban = "dir" }},
 		// cool-down word
 		{"cd-exp-15", func(r *row, b *brd) { r.cd, r.pt = "exp", 15 }},
 		{"cd-act-0", func(r *row, b *brd) { r.cd, r.pt = "act", 0 }},
@@ -300,6 +302,7 @@ func generate() {
 
 	friendHistories(th)
 	threadHistories(th)
+	banrecHistories(th)
 
 	// cool-down histories
 	for _, nu := range []int32{0, 30, 31, 1000, 1001, 2001, 4001} {
@@ -620,6 +623,36 @@ func threadHistories(th bool) {
 	}
 	for _, l := range []string{"reset thread ao=self at=0", "reset thread ao=self at=0 R/E", "reset thread ao=nobody at=0 Tl", "reset thread ao=self at=x Tl",
 		"reset thread ao=self at=0 Tl/Q", "reset thread at=0 ao=self Tl"} {
+		execLine(l)
+	}
+}
+
+// banrecHistories: histories on the ban record.  The record is put into every state a reader can meet (absent, in
+// force, expired, unparsable, empty, a directory, created-but-not-yet-written by a session that holds it open) and the
+// user writes; then the ban is completed and the user writes again.
+func banrecHistories(th bool) {
+	hs := []string{"P", "S:act/P/P", "S:exp/P/P", "S:junk/P/P", "S:empty/P/P", "S:dir/P/P", "S:empty/P/S:act/P", "S:dir/P/S:act/P",
+		"B/P/F/P", "B/F/P", "B/P/P/F/P/P", "S:act/P/S:none/P", "S:exp/P/S:act/P", "S:empty/P/S:exp/P/S:act/P", "B/P/F/P/S:none/P"}
+	for _, op := range opList {
+		for _, h := range hs {
+			execLine("reset banrec " + op + " " + h)
+		}
+		nr := 6
+		if th {
+			nr = 80
+		}
+		all := []string{"P", "P", "B", "F", "S:none", "S:act", "S:exp", "S:junk", "S:empty", "S:dir"}
+		for j := 0; j < nr; j++ {
+			k := 2 + run.R.Intn(8)
+			var st []string
+			for len(st) < k {
+				st = append(st, all[run.R.Intn(len(all))])
+			}
+			st = append(st, "P")
+			execLine("reset banrec " + op + " " + strings.Join(st, "/"))
+		}
+	}
+	for _, l := range []string{"reset banrec newpost", "reset banrec newpost S:act", "reset banrec newpost S:maybe/P", "reset banrec nosuch P", "reset banrec newpost P//P"} {
 		execLine(l)
 	}
 }
